@@ -195,6 +195,7 @@ class Agent:
         self.salt_counter = 0
         self.honor_reportable = True
         self.trace = []  # free-form flags used as known-finding triggers
+        self.counter_base = 0      # the usmStats counters did not start at zero (Counter32: they wrap at 2^32)
         self.volatile = False      # counters, gauges and time ticks move on with every read (as on a live device)
         self.reads = 0
 
@@ -371,7 +372,7 @@ class Agent:
             raise Silent("request with reportableFlag 0 cannot be answered with a Report (%s)" % S(oid))
         pdu = self.encode_pdu(
             PDU_REPORT, rid, 0, 0,
-            [(oid, T_COUNTER, vber.int_content(counter))],
+            [(oid, T_COUNTER, vber.int_content((counter + self.counter_base) % 2 ** 32))],
         )
         body = vber.enc_scoped_pdu(self.engine_id, b"", pdu)
         if flags & 1 and user is not None:
